@@ -69,7 +69,7 @@ PROPS = {
     'C15': dict(
         quick_grids=['dom.edit_roundtrip1'],
         standin_ops=['dom.edit_roundtrip', 'info.text.insert', 'info.comment.insert', 'info.cdata.insert', 'dom.text.insert_data', 'dom.text.append_data', 'dom.comment.insert_data', 'dom.comment.append_data', 'dom.cdata.insert_data', 'dom.cdata.append_data'],
-        verus_units=['c16_chardata'],
+        verus_units=['c16_chardata', 'c15_print'],
         level='proof',
         trusted_base=TRUSTED_VERUS,
         assumptions=[A1, A2, A3 + ' -- for C15 the assumption is the strong form: each checker DECIDES production [14] CharData / [15] Comment / [20] CData for its argument', A4, A6, A8],
